@@ -315,6 +315,16 @@ impl Task {
     }
 
     pub fn set_state(&self, state: TaskState) {
+        #[cfg(acts_verif)]
+        crate::verif::clock_bump();
+        #[cfg(acts_verif)]
+        crate::verif::log(format!(
+            "T {} {} {} {}",
+            self.pid,
+            self.id,
+            self.state(),
+            state
+        ));
         if state.is_completed() {
             self.set_end_time(utils::time::time_millis());
 
